@@ -87,6 +87,16 @@ CHECKS = {
             "Three-valued where the documentation is silent (context ended / query true with only canceled or check transitions since). "
             "Schedules other than the two gated windows come from handler positions only.",
             "model-based stateful property testing (rapid) with harness-owned schedule gates", "DESIGN.md §5 C06"),
+    "C13": ("exploration",
+            "Property-based exploration of dispose points: generated workloads (concurrent mutators, handlers that mutate, outstanding subscriptions of "
+            "every When* kind, state contexts, OnDispose handlers) x a generated trigger (idle Dispose, DisposeForce, concurrent double Dispose, "
+            "Dispose while a transition is held at a verif gate, from inside a handler, from inside Eval, a second Dispose while the first is held "
+            "at a doDispose stage, parent-context cancel, amhelp.Dispose with the DisposedStates mixin). After WhenDisposed closes: every channel "
+            "closed, every state context canceled, each dispose handler ran exactly once, ~45 public calls return promptly with neutral values, "
+            "and the machine's goroutines are gone.",
+            "WhenDisposed not closing within 20 s while nothing runs is the violation 'never disposes'. DisposeForce only on idle machines "
+            "(documented to panic otherwise). Handler-less machines ignoring parent cancel are recorded as an observation, per the statement's condition.",
+            "property-based testing (rapid) with harness-owned dispose points (verif gates) and a goroutine-leak oracle", "DESIGN.md §5 C13"),
 }
 
 NOT_YET = "check not built yet in this session (planned, see DESIGN.md §9)"
